@@ -40,6 +40,11 @@ def gen_records(rng, big=False, many=False):
         # the wire length is whatever the file says: usually >= the captured length, but 0 or less than it occur in the wild
         wire = rng.choice([None, None, sz + rng.randint(0, 2000), 0, max(0, sz - rng.randint(1, 10)), (1 << 32) - 1])
         recs.append((rng.getrandbits(32), rng.getrandbits(32) if rng.random() < 0.5 else rng.randrange(1000000), data, None, wire))
+    if rng.random() < 0.12:
+        # records that are all zero (time stamp 0, no data), singly or in runs, at the end or in the middle
+        z = [(0, 0, b"", None, 0)] * rng.randint(1, 4)
+        pos = rng.choice([len(recs), len(recs), rng.randint(0, len(recs))])
+        recs[pos:pos] = z
     return recs
 
 
@@ -305,6 +310,20 @@ def run(chk):
                     "    let i = 0; while i < len(a) { puts(a[i].sec, \" \", a[i].caplen, \" \", a[i].wirelen, \" \", len(a[i].payload)); i = i + 1; }\n    puts(\"N \", len(a));\n  }\n}\n")
         with open(script_flt, "w") as f:
             f.write("@ true\n")
+        # ---- a pcap_write that fails (wrong handle, full device) leaves no trace in what later pcap_writes put into other files
+        src3 = os.path.join(work, "iso-src.pcap")
+        with open(src3, "wb") as f:
+            f.write(pkt.pcap_file([(k + 1, k, pkt.rand_frame(rng, well_formed=True)[0]) for k in range(5)]))
+        good = os.path.join(work, "iso-good.pcap")
+        iso = []
+        setup = ["let ps = pcap_read_all(pcap_open(%s)); ps[1].eth; ps[3].eth.type;" % lit(src3)]
+        probes = ["let o = pcap_open(%s, \"w\"); let i = 0; while i < len(ps) { pcap_write(o, ps[i]); i = i + 1; } puts(len(ps));" % lit(good)]
+        for tag, failing in (("reader-handle", ["let rd = pcap_open(%s); puts(is_error(pcap_write(rd, ps[0]))); puts(is_error(pcap_write(rd, ps[1])));" % lit(src3)]),
+                             ("full-device", ["let fd = pcap_open(\"/dev/full\", \"w\"); let j = 0; let e = false; while j < 400 { if is_error(pcap_write(fd, ps[j % 5])) { e = true; break; } j = j + 1; } puts(e);"]),
+                             ("not-a-handle", ["pcap_write(5, ps[0]);"]), ("not-a-packet", ["pcap_write(pcap_open(%s, \"w\"), 5);" % lit(os.path.join(work, "iso-x.pcap"))]),
+                             ("error-object-handle", ["pcap_write(pcap_open(\"/nonexistent/x\", \"w\"), ps[2]);"])):
+            iso.append((tag, setup, failing, probes, [good]))
+        core.isolation_after_errors(chk, "pcap_write", iso)
         # ---- complete streams copied from stdin to stdout (pcap_write on pcap_stream(stdout), and filter mode): records larger
         # than the stdout buffer that contain line-feed bytes at odd places, and many small records
         script_copy = os.path.join(work, "sc.p2")
